@@ -207,6 +207,7 @@ theorem doFilter_ok : ∀ (items items' : List (Stage D E)) (x out c e : Bytes),
             · exact f3
             · exact i2 s hs
 
+omit hl in
 /-- a chain of text stages never fails -/
 theorem doFilter_text_ok : ∀ (items : List (Stage D E)) (x : Bytes),
     AllPlain items → htmlCount items = 0 → ∃ r, (doFilter tk ev codec items x).2 = some r
@@ -236,7 +237,7 @@ not part of this lemma.) -/
 theorem doFilter_err : ∀ (items items' : List (Stage D E)) (x c e : Bytes),
     AllPlain items → AllOK tk items → htmlCount items ≤ 1 → Inv items c e →
     doFilter tk ev codec items x = (items', none) →
-    AllPlain items' ∧ items'.map stageRel = items.map stageRel ∧ Inv items' c e
+    AllPlain items' ∧ items'.map stageRel = items.map stageRel ∧ items'.map isHtml = items.map isHtml ∧ Inv items' c e
   | [], items', x, c, e, _, _, _, _, h => by simp [doFilter] at h
   | st :: rest, items', x, c, e, hp, hok, hc, hinv, h => by
     rw [doFilter] at h
@@ -245,7 +246,7 @@ theorem doFilter_err : ∀ (items items' : List (Stage D E)) (x c e : Bytes),
       simp only [hf] at h
       injection h with h1' _
       subst h1'
-      exact ⟨hp, rfl, hinv⟩
+      exact ⟨hp, rfl, rfl, hinv⟩
     | some r =>
       obtain ⟨st', o⟩ := r
       simp only [hf] at h
@@ -270,14 +271,14 @@ theorem doFilter_err : ∀ (items items' : List (Stage D E)) (x c e : Bytes),
               have hc' : htmlCount rest = 0 := by
                 simp [htmlCount, List.filter, hh] at hc ⊢
                 omega
-              obtain ⟨r, hr'⟩ := doFilter_text_ok hl ev codec rest o (fun s hs => hp s (by simp [hs])) hc'
+              obtain ⟨r, hr'⟩ := doFilter_text_ok (tk := tk) ev codec rest o (fun s hs => hp s (by simp [hs])) hc'
               rw [hr] at hr'
               simp at hr'
           have hc' : htmlCount rest ≤ 1 := by
             simp [htmlCount, List.filter, hnh] at hc ⊢
             exact hc
           obtain ⟨m, h1, h2⟩ := hinv
-          obtain ⟨i1, i2, i3⟩ := doFilter_err rest rest' o m e
+          obtain ⟨i1, i2, i2', i3⟩ := doFilter_err rest rest' o m e
             (fun s hs => hp s (by simp [hs])) (fun s hs => hok s (by simp [hs])) hc' h2 hr
           -- a non-html plain stage holds nothing, before and after
           have hh0 : held st = [] := by
@@ -285,10 +286,190 @@ theorem doFilter_err : ∀ (items items' : List (Stage D E)) (x c e : Bytes),
           have hh1 : held st' = [] := by
             have : isHtml st' = false := by rw [f2]; exact hnh
             cases st' <;> simp_all [held, isHtml]
-          refine ⟨?_, by simp [f4, i2], ⟨m, by rw [f4, hh1]; rw [hh0] at h1; exact h1, i3⟩⟩
+          refine ⟨?_, by simp [f4, i2], by simp [f2, i2'], ⟨m, by rw [f4, hh1]; rw [hh0] at h1; exact h1, i3⟩⟩
           intro s hs; simp at hs; rcases hs with rfl | hs
           · exact f1
           · exact i1 s hs
+
+/-- one stage of `do_end`, success: the stage's relation takes what it held plus the in-flight data to its output -/
+theorem Stage.endWith_ok (st st' : Stage D E) (d : Option Bytes) (nd : Bytes) (hp : isPlain st = true) (hok : StOK tk st)
+    (h : st.endWith tk ev codec d = (st', some nd)) :
+    (stageRel st).r (held st ++ d.getD []) nd := by
+  cases d with
+  | none =>
+    simp only [Stage.endWith] at h
+    cases he : st.end codec with
+    | none => simp [he] at h
+    | some r =>
+      obtain ⟨st1, o⟩ := r
+      simp only [he] at h
+      injection h with h1 h2
+      injection h2 with h2
+      subst h1 h2
+      have := (Stage.end_spec (tk := tk) codec st st1 o hp hok he).2.2.2.2
+      simpa using this
+  | some str =>
+    simp only [Stage.endWith] at h
+    cases hf : st.filter tk ev codec str with
+    | none => simp [hf] at h
+    | some r =>
+      obtain ⟨st1, o1⟩ := r
+      simp only [hf] at h
+      obtain ⟨f1, f2, f3, f4, f5⟩ := Stage.filter_spec hl ev codec st st1 str o1 hp hok hf
+      cases he : st1.end codec with
+      | none => simp [he] at h
+      | some r =>
+        obtain ⟨st2, o2⟩ := r
+        simp only [he] at h
+        injection h with h1 h2
+        injection h2 with h2
+        subst h1 h2
+        have e5 := (Stage.end_spec (tk := tk) codec st1 st2 o2 f1 f3 he).2.2.2.2
+        rw [f4] at e5
+        have := (stageRel st).trans f5 ((stageRel st).appL o1 e5)
+        simpa using this
+
+omit hl in
+/-- one stage of `do_end`, failure: only the `filter` of an html stage can fail, and it keeps its state -/
+theorem Stage.endWith_err (st st' : Stage D E) (d : Option Bytes) (hp : isPlain st = true)
+    (h : st.endWith tk ev codec d = (st', none)) : st' = st := by
+  cases d with
+  | none =>
+    simp only [Stage.endWith] at h
+    obtain ⟨r, hr⟩ := Stage.end_some codec st hp
+    simp [hr] at h
+  | some str =>
+    simp only [Stage.endWith] at h
+    cases hf : st.filter tk ev codec str with
+    | none => simp only [hf] at h; injection h with h1 _; exact h1.symm
+    | some r =>
+      obtain ⟨st1, o1⟩ := r
+      simp only [hf] at h
+      have hp1 : isPlain st1 = true := by
+        cases st with
+        | html s =>
+          simp only [Stage.filter, Option.map_eq_some_iff] at hf
+          obtain ⟨a, _, ha⟩ := hf
+          injection ha with ha _
+          subst ha; rfl
+        | text s =>
+          simp only [Stage.filter] at hf
+          injection hf with hf
+          injection hf with ha _
+          subst ha; rfl
+        | decode d => simp [isPlain] at hp
+        | encode e => simp [isPlain] at hp
+      obtain ⟨r, hr⟩ := Stage.end_some codec st1 hp1
+      simp [hr] at h
+
+/-- `do_end`, success or failure: what comes out (the end output, or the pass-through of the error branch) is related
+to everything that went in by the composition of the stage relations -/
+theorem doEnd_comp : ∀ (items items' : List (Stage D E)) (d : Option Bytes) (c e : Bytes)
+    (res : Except Bytes (Option Bytes)),
+    AllPlain items → AllOK tk items → Inv items c e →
+    doEnd tk ev codec items d = (items', res) →
+    Comp (items.map stageRel) (c ++ d.getD [])
+      (e ++ match res with | .ok r => r.getD [] | .error p => p)
+  | [], items', d, c, e, res, _, _, hinv, h => by
+    simp [doEnd] at h
+    obtain ⟨_, rfl⟩ := h
+    simp [Inv] at hinv
+    simp [Comp, hinv]
+  | st :: rest, items', d, c, e, res, hp, hok, hinv, h => by
+    rw [doEnd] at h
+    cases hw : st.endWith tk ev codec d with
+    | mk st' r =>
+      cases r with
+      | none =>
+        simp only [hw] at h
+        injection h with h1 h2
+        subst h1 h2
+        have hst : st' = st := Stage.endWith_err ev codec st st' d (hp st (by simp)) hw
+        subst hst
+        have := Inv.flush (st' :: rest) c e (d.getD []) hinv
+        simpa [List.append_assoc] using this
+      | some nd =>
+        simp only [hw] at h
+        obtain ⟨m, h1, h2⟩ := hinv
+        have hrel := Stage.endWith_ok hl ev codec st st' d nd (hp st (by simp)) (hok st (by simp)) hw
+        cases hr : doEnd tk ev codec rest (if nd.isEmpty = true then none else some nd) with
+        | mk rest' r =>
+          rw [hr] at h
+          simp only at h
+          injection h with h1' h2'
+          subst h1' h2'
+          have hnd : (if nd.isEmpty = true then none else some nd : Option Bytes).getD [] = nd := by
+            by_cases hemp : nd.isEmpty = true
+            · have : nd = [] := by simpa using hemp
+              simp [this]
+            · simp [hemp]
+          have ih := doEnd_comp rest rest' _ m e r (fun s hs => hp s (by simp [hs])) (fun s hs => hok s (by simp [hs])) h2 hr
+          rw [hnd] at ih
+          refine ⟨m ++ nd, ?_, ih⟩
+          have a := (stageRel st).appR (d.getD []) h1
+          have b := (stageRel st).appL m hrel
+          exact (stageRel st).trans a (by simpa [List.append_assoc] using b)
+
+end
+
+/-! ### the chain -/
+
+theorem htmlCount_eq_of_map {a b : List (Stage D E)} (h : a.map isHtml = b.map isHtml) : htmlCount a = htmlCount b := by
+  have key : ∀ l : List (Stage D E), htmlCount l = ((l.map isHtml).filter id).length := by
+    intro l
+    induction l with
+    | nil => rfl
+    | cons x xs ih =>
+      simp only [htmlCount, List.filter, List.map] at ih ⊢
+      cases isHtml x <;> simp [ih]
+  rw [key, key, h]
+
+/-- invariant of a running chain w.r.t. the input consumed `c` and the output emitted `e` so far -/
+structure CI (tk : Tokenize) (rels : List StreamRel) (ch : Chain D E) (c e : Bytes) : Prop where
+  plain : AllPlain ch.items
+  ok : ch.inError = false → AllOK tk ch.items
+  one : htmlCount ch.items ≤ 1
+  relsEq : ch.inError = false → ch.items.map stageRel = rels
+  inv : if ch.inError then ∀ y, Comp rels (c ++ y) (e ++ y) else Inv ch.items c e
+
+section
+variable {tk : Tokenize} (hl : Lossless tk) (ev : Bytes → Bytes → Bool) (codec : Codec D E)
+include hl
+
+theorem Chain.filter_CI (rels : List StreamRel) (ch : Chain D E) (c e x : Bytes) (h : CI tk rels ch c e) :
+    CI tk rels (ch.filter tk ev codec x).1 (c ++ x) (e ++ (ch.filter tk ev codec x).2) := by
+  unfold Chain.filter
+  cases herr : ch.inError with
+  | true =>
+    simp only [if_true]
+    refine ⟨h.plain, fun h' => by simp [herr] at h', h.one, fun h' => by simp [herr] at h', ?_⟩
+    have := h.inv
+    simp only [herr, if_true] at this ⊢
+    intro y
+    have := this (x ++ y)
+    simpa [List.append_assoc] using this
+  | false =>
+    simp only [Bool.false_eq_true, if_false]
+    have hinv := h.inv
+    simp only [herr, Bool.false_eq_true, if_false] at hinv
+    cases hd : doFilter tk ev codec ch.items x with
+    | mk items' r =>
+      cases r with
+      | some out =>
+        simp only
+        obtain ⟨a1, a2, a3, a4, a5⟩ := doFilter_ok hl ev codec ch.items items' x out c e h.plain (h.ok herr) hinv hd
+        refine ⟨a1, fun _ => a2, by rw [htmlCount_eq_of_map a4]; exact h.one, fun _ => by rw [a3]; exact h.relsEq herr, ?_⟩
+        simp only [herr, Bool.false_eq_true, if_false]
+        exact a5
+      | none =>
+        simp only
+        obtain ⟨a1, a2, a2', a3⟩ := doFilter_err hl ev codec ch.items items' x c e h.plain (h.ok herr) h.one hinv hd
+        refine ⟨a1, fun h' => by simp at h', by rw [htmlCount_eq_of_map a2']; exact h.one, fun h' => by simp at h', ?_⟩
+        · simp only [if_true]
+          intro y
+          have := Inv.flush items' c e (x ++ y) a3
+          rw [a2, h.relsEq herr] at this
+          simpa [List.append_assoc] using this
 
 end
 
